@@ -1,1 +1,11 @@
 import RaftLogModel.Props.C01
+open RaftLog
+#print axioms c01_step
+#print axioms c01_spec_wf
+#print axioms c01_read
+#print axioms c01_iter
+#print axioms c01_state
+#print axioms c01_refines_store
+#print axioms c01_refines
+#print axioms c01_calls_ok
+#print axioms c01_chunking_invisible
